@@ -1772,17 +1772,24 @@ impl RdfExpressionPredicate {
         self.eval_expr(&self.expression, chunk, row)
     }
 
+    /// The value a row binds a variable to. A variable that is not a column, or whose
+    /// cell is null (left unbound by an OPTIONAL), has no value: using it is an error,
+    /// which is `None` here.
+    fn bound_value(&self, name: &str, chunk: &DataChunk, row: usize) -> Option<Value> {
+        let col_idx = *self.variable_columns.get(name)?;
+        match chunk.column(col_idx)?.get_value(row)? {
+            Value::Null => None,
+            value => Some(value),
+        }
+    }
+
     fn eval_expr(&self, expr: &FilterExpression, chunk: &DataChunk, row: usize) -> Option<Value> {
         match expr {
             FilterExpression::Literal(v) => Some(v.clone()),
-            FilterExpression::Variable(name) => {
-                let col_idx = *self.variable_columns.get(name)?;
-                chunk.column(col_idx)?.get_value(row)
-            }
+            FilterExpression::Variable(name) => self.bound_value(name, chunk, row),
             FilterExpression::Property { variable, .. } => {
                 // For RDF, treat property access as variable access
-                let col_idx = *self.variable_columns.get(variable)?;
-                chunk.column(col_idx)?.get_value(row)
+                self.bound_value(variable, chunk, row)
             }
             FilterExpression::Binary { left, op, right } => {
                 let left_val = self.eval_expr(left, chunk, row)?;
@@ -1797,8 +1804,7 @@ impl RdfExpressionPredicate {
             | FilterExpression::Labels(var)
             | FilterExpression::Type(var) => {
                 // Treat Id/Labels/Type access as variable lookup for RDF
-                let col_idx = *self.variable_columns.get(var)?;
-                chunk.column(col_idx)?.get_value(row)
+                self.bound_value(var, chunk, row)
             }
             FilterExpression::FunctionCall { name, args } => {
                 self.eval_function_call(name, args, chunk, row)
